@@ -299,11 +299,27 @@ def seed_rules(chk, repo, eff, clause, global_users, only=None):
                '; '.join(f'{r[0]} {r[1]} at {r[2]}' for r in bad) or
                ('a draw does not come from default_rng(seed)' if not from_rng else f'{len(draws)} draw(s) from the local generator'),
                f.loc())
+    from ..model import callees_of
+    from ..interp import known_functions
+    callers = {}
+    for g_ in repo.all_functions():
+        for k in callees_of(repo, g_):
+            callers.setdefault(k, set()).add(g_.key)
+
+    def part_of_documented(key, seen=()):
+        """a private helper split off a documented unseeded model: new since the rules were written and called by
+        nothing but documented users of the global generator (or further such helpers)"""
+        if key in global_users:
+            return True
+        if key in seen or key in known_functions() or not key.rsplit('.', 1)[-1].startswith('_'):
+            return False
+        cs = callers.get(key, set())
+        return bool(cs) and all(part_of_documented(c, seen + (key,)) for c in cs)
     for f in repo.all_functions():
         s = eff.summary(f)
         g = [r for r in s.rng if r[0] in ('global-rng', 'nondet') or r[0].startswith('reaches:')]
         if g:
-            ok = f.key in global_users
+            ok = f.key in global_users or part_of_documented(f.key)
             chk.ob(clause, 'E3-global', f.key, 'global random state user', ok,
                    ('documented unseeded model: ' if ok else 'undocumented use of global random state / nondeterminism: ')
                    + '; '.join(f'{r[1]} at {r[2]}' for r in g), f.loc())
